@@ -216,3 +216,29 @@ def memo_values_mutable(fn, gname):
     if not rs:
         return None
     return True if True in rs else (None if None in rs else False)
+
+
+def memo_stores_generator(fn, gname):
+    """Does the memo keep the result of calling a generator function of the
+    same module (a one-shot iterator: the second caller gets what the first
+    left of it)?  Returns the function's name or None."""
+    T = Terms(fn)
+    G = ("global", gname)
+    mod = getattr(fn, "_module", None)
+    vals = []
+    for n, st, base, key, val in stores(T):
+        if plain(base) == G:
+            vals.append(plain(val))
+    for n, c, recv, args in method_calls(T, ["setdefault"]):
+        if plain(recv) == G and len(args) == 2:
+            vals.append(plain(args[1]))
+    import ast as _ast
+    for v in vals:
+        if v[0] in ("call", "callv") and v[1][0] == "global" and \
+                mod is not None:
+            d = mod.defs.get(v[1][1])
+            if isinstance(d, _ast.FunctionDef) and any(
+                    isinstance(x, (_ast.Yield, _ast.YieldFrom))
+                    for x in _ast.walk(d)):
+                return v[1][1]
+    return None
